@@ -38,7 +38,7 @@ def required(tier):
     # which documented error a given bad text raises is the implementation's choice: the error classes are reported, not gated on
     return ["rejected_with_a_documented_error", "parsed_and_rendered>=1000", "origin:extremes", "parsed_under_a_selection",
             "op:delete_line", "op:duplicate_line", "op:swap_lines", "op:move_structural", "op:char_insert", "op:char_delete", "op:char_substitute",
-            "origin:fragments", "origin:unfaulted", "hit:Song", "hit:SyncTrack", "hit:Events", "hit:instrument"]
+            "origin:fragments", "origin:unfaulted", "rendered_again_after_use", "hit:Song", "hit:SyncTrack", "hit:Events", "hit:instrument"]
 
 
 def shards(tier, seed):
@@ -154,6 +154,12 @@ def judge(rec, text, origin, sel=None):
     if out.ok:
         try:
             n = render_all(out.chart)
+            if len(text) % 2 == 0:
+                # ... also after the chart has been USED: derived attributes read and rate queries asked (documented errors allowed);
+                # whatever those leave behind in the objects must still render
+                use(out.chart)
+                n += render_all(out.chart)
+                rec.cls("rendered_again_after_use")
         except Exception as e:  # noqa
             import traceback
 
@@ -180,6 +186,28 @@ def judge(rec, text, origin, sel=None):
     rec.cls(f"origin:{origin}")
     if origin != "unfaulted":
         rec.key(text)
+
+
+def use(chart):
+    for inst, m in list(chart.instrument_tracks.items()):
+        for diff, tr in list(m.items()):
+            try:
+                tr.last_note_end_timestamp, tr.header_tag
+                for nt in tr.note_events[:50]:
+                    nt.end_tick, nt.longest_sustain
+            except Exception:  # noqa
+                pass
+            for args in ((), (0, 10)):
+                try:
+                    chart.notes_per_second(inst, diff, *args)
+                except Exception:  # noqa  (what a query may raise is C16's business; here only the renderings afterwards count)
+                    pass
+    be = chart.sync_track.bpm_events
+    for q in (0, 1, 10**6):
+        try:
+            be.timestamp_at_tick(q), be.timestamp_at_tick_no_optimize_return(q)
+        except Exception:  # noqa
+            pass
 
 
 def extremes():
